@@ -132,6 +132,7 @@ def aggregate(results):
             t = r.get("t")
             if t == "obs":
                 last_obs = r
+                agg["distinct"].update(r.get("distinct", ()))  # each obs record carries the digests new since the previous one
             elif t == "viol":
                 r["hashseed"] = spec.get("hashseed", 0)
                 agg["viol"].setdefault(r["key"], []).append(r)
